@@ -45,7 +45,7 @@ let st = { cases = 0; daemon_cases = 0; cli_cases = 0; corr_fail = 0; mon_fail =
            e_multi = 0; e_net = 0; clierr = 0; file_refused = 0; no_file = 0; both_sources = 0;
            port_defaulted = 0; exhaustive = 0; distinct = Hashtbl.create 4096; nontrivial = Hashtbl.create 4096 }
 
-let docs = teosd_docs template_entries
+let docs = cfg_teosd_docs conf_template_entries
 
 let has_prefix (p : String.t) (s : String.t) =
   String.length s >= String.length p && String.sub s 0 (String.length p) = p
@@ -74,8 +74,8 @@ let handle (lineno : int) (line : String.t) (r : reader) : unit =
       else if String.sub line i 5 = " OBS " then i else find (i + 1) in
     String.sub line 0 (find 0) in
   let file = if mode = 1 then Some fentries else None in
-  let cl = { cl_vals = vals; cl_flags = flags } in
-  let d = if daemon then teosd_descr else cli_descr in
+  let cl = cfg_mk_cli vals flags in
+  let d = if daemon then teosd_descr else teoscli_descr in
   st.cases <- st.cases + 1;
   if daemon then st.daemon_cases <- st.daemon_cases + 1 else st.cli_cases <- st.cli_cases + 1;
   Hashtbl.replace st.distinct (Digest.string case_key) ();
@@ -89,7 +89,7 @@ let handle (lineno : int) (line : String.t) (r : reader) : unit =
     st.mon_fail <- st.mon_fail + 1;
     Printf.printf "FAIL mon line=%d violated=%s case=%s\n" lineno (String.concat "," labels) case_key in
   if mode <> 1 then st.no_file <- st.no_file + 1
-  else if file_seen d file = [] && fentries <> [] then st.file_refused <- st.file_refused + 1;
+  else if cfg_file_seen d file = [] && fentries <> [] then st.file_refused <- st.file_refused + 1;
   if List.exists (fun (k, _) -> List.mem_assoc k vals || List.mem k flags) fentries then
     st.both_sources <- st.both_sources + 1;
   match peek r with
@@ -100,19 +100,19 @@ let handle (lineno : int) (line : String.t) (r : reader) : unit =
       mon ["panic:" ^ m]
   | Some "CLIERR" ->
       st.clierr <- st.clierr + 1;
-      if cli_ok d cl then corr "command line refused by structopt" "accepted" "CLIERR"
+      if cfg_cli_ok d cl then corr "command line refused by structopt" "accepted" "CLIERR"
   | _ ->
       let patched = read_pairs r in
-      let model_ok = cli_ok d cl in
+      let model_ok = cfg_cli_ok d cl in
       if not model_ok then corr "command line" "refused (not a value an Opt can hold)" "accepted";
-      let cmp_fields what (impl : (text * cval) list) (model : config) =
-        let names = List.map (fun f -> f.f_name) d.d_fields in
+      let cmp_fields what (impl : (text * cval) list) model =
+        let names = cfg_field_names d in
         List.iter (fun n ->
           if not (List.mem_assoc n impl) then corr (what ^ " field missing in impl: " ^ str_of_text n) "present" "absent") names;
         List.iter (fun (n, v) ->
           if not (List.mem n names) then corr (what ^ " unknown field in impl: " ^ str_of_text n) "absent" (tok_of_val v)
           else begin
-            let mv = cget model n in
+            let mv = cfg_get model n in
             if mv <> v then corr (what ^ " " ^ str_of_text n) (tok_of_val mv) (tok_of_val v)
           end) impl in
       if daemon then begin
@@ -121,31 +121,29 @@ let handle (lineno : int) (line : String.t) (r : reader) : unit =
         let changed = read_pairs r in
         let final = changed @ List.filter (fun (k, _) -> not (List.mem_assoc k changed)) patched in
         (* correspondence *)
-        let oc = run_daemon d teosd_vdescr file cl in
+        let oc = cfg_run_daemon d teosd_vdescr file cl in
         if model_ok then begin
-          cmp_fields "patched" patched oc.oc_patched;
-          let mres = match oc.oc_result with VOk -> "ok" | VErr m -> class_of_msg (str_of_text m) in
+          cmp_fields "patched" patched (cfg_oc_patched oc);
+          let mres = match cfg_oc_result oc with VOk -> "ok" | VErr m -> class_of_msg (str_of_text m) in
           if mres <> res then corr "verify" mres res;
-          cmp_fields "final" final oc.oc_final
+          cmp_fields "final" final (cfg_oc_final oc)
         end;
         (match res with
          | "ok" -> st.ok <- st.ok + 1;
-             if List.exists (fun (k, _) -> k = n_port) changed then st.port_defaulted <- st.port_defaulted + 1
+             if List.exists (fun (k, _) -> k = cfg_n_port) changed then st.port_defaulted <- st.port_defaulted + 1
          | "e_noauth" -> st.e_noauth <- st.e_noauth + 1
          | "e_multi" -> st.e_multi <- st.e_multi + 1
          | "e_net" -> st.e_net <- st.e_net + 1
          | _ -> ());
         (* the monitor on what the implementation did *)
-        let impl_oc = { oc_patched = patched;
-                        oc_result = (if res = "ok" then VOk else VErr (text_of res));
-                        oc_final = final } in
-        let bad = mon_fails d docs file cl impl_oc in
+        let impl_oc = cfg_mk_outcome patched (if res = "ok" then VOk else VErr (text_of res)) final in
+        let bad = cfg_mon_fails d docs file cl impl_oc in
         if bad <> [] then mon (List.map str_of_text bad);
         if res = "e_other" then mon ["unknown_error_class"]
       end else begin
-        let c = run_cli d file cl in
+        let c = cfg_run_cli d file cl in
         if model_ok then cmp_fields "patched" patched c;
-        let bad = mon_fails_cli d cli_docs file cl patched in
+        let bad = cfg_mon_fails_cli d cfg_teoscli_docs file cl patched in
         if bad <> [] then mon (List.map str_of_text bad)
       end;
       if fentries <> [] || vals <> [] || flags <> [] then Hashtbl.replace st.nontrivial (Digest.string case_key) ()
@@ -155,16 +153,14 @@ let b2i b = if b then 1 else 0
 let summary () =
   if st.cases > 0 then begin
     (* the premises of the theorems, re-evaluated on the extracted descriptors (diagnostic) *)
-    let shape = verify_shape teosd_vdescr.v_stmts in
-    let sh_ok f = match shape with Some sh -> f sh | None -> false in
+    let ((shape_ok, auth_ok), docs_ok) = cfg_verify_checks teosd_vdescr docs in
     Printf.printf "SUMMARY kind=CFG cases=%d daemon_cases=%d cli_cases=%d corr_fail=%d mon_fail=%d distinct=%d distinct_nontrivial=%d exhaustive_cases=%d both_sources=%d verify_ok=%d e_noauth=%d e_multi=%d e_net=%d port_defaulted=%d clierr=%d no_file=%d file_refused=%d conforms=%d conforms_cli=%d verify_shape=%d auth_table_ok=%d networks_documented=%d defaults_documented=%d\n"
       st.cases st.daemon_cases st.cli_cases st.corr_fail st.mon_fail (Hashtbl.length st.distinct)
       (Hashtbl.length st.nontrivial) st.exhaustive st.both_sources st.ok st.e_noauth st.e_multi st.e_net
       st.port_defaulted st.clierr st.no_file st.file_refused
-      (b2i (conforms teosd_descr one_shot_names)) (b2i (conforms cli_descr []))
-      (b2i (shape <> None)) (b2i (sh_ok (fun sh -> auth_table_ok teosd_vdescr sh)))
-      (b2i (sh_ok (fun sh -> networks_documented sh docs && scrutinee_documented teosd_vdescr docs)))
-      (b2i (defaults_documented teosd_descr docs))
+      (b2i (cfg_conforms teosd_descr cfg_one_shot_names)) (b2i (cfg_conforms teoscli_descr []))
+      (b2i shape_ok) (b2i auth_ok) (b2i docs_ok)
+      (b2i (cfg_defaults_documented teosd_descr docs))
   end
 
 let () =
